@@ -104,6 +104,14 @@ def layout_from_sx(t):
         for d in shape:
             need *= d
         return L.NumpyArray(buf[:need].reshape(shape) if len(shape) != 1 or need != len(buf) else buf)
+    if h == 'npT':
+        # the same values as (np ...), stored in Fortran order: a non-contiguous n-d NumpyArray (a transposed view)
+        shape = ints(t[2])
+        buf = np_buffer(t[1], t[3])
+        need = 1
+        for d in shape:
+            need *= d
+        return L.NumpyArray(np.asfortranarray(buf[:need].reshape(shape)))
     if h == 'empty':
         return L.EmptyArray()
     if h == 'lo':
@@ -277,7 +285,7 @@ def apply_impl(name, args):
 def nd_from_sx(t):
     """ndarray of a purely regular layout text (np / reg / ix nodes only); None when outside that set"""
     h = t[0]
-    if h == 'np':
+    if h in ('np', 'npT'):
         shape = ints(t[2])
         buf = np_buffer(t[1], t[3])
         need = 1
